@@ -7,6 +7,11 @@ GT = "./internal/mysql/gtids"
 OPT = "./internal/app/optimization"
 
 REGISTRY = {
+    "C19": dict(
+        level="exploration",
+        units=[dict(pkg=OPT, test="TestVerifC19", quick=20000, thorough=500000, shards_quick=8, shards_thorough=16),
+               dict(pkg=APP, test="TestVerifC19Sim", quick=800, thorough=30000, shards_quick=16, shards_thorough=16)],
+    ),
     "C17": dict(
         level="exploration",
         units=[dict(pkg=APP, test="TestVerifC17", quick=6000, thorough=300000, shards_quick=16, shards_thorough=16)],
